@@ -30,7 +30,7 @@ CLAIMS = {
    note="Challenge is the hash reduced mod l as the library documents. Trusts the model's predicate.",
    technique="deterministic simulation: Byzantine signer constructions on the wire, verdict-by-verdict comparison with an exact reference predicate"),
  "C13": dict(level="exploration", ref="DESIGN.md §3 C13",
-   text="A batch verifier fed by an unreliable network (reorder, duplicate, drop, corrupt) flushes queues of sizes across the algorithm switches, repeats, permutes and duplicates them; in-domain verdicts compared with the conjunction of reference single verifications, out-of-domain only the promised errors and determinism.",
+   text="A batch verifier fed by an unreliable network (reorder, duplicate, drop, corrupt) flushes queues of sizes across the algorithm switches (up to 1024 and 4100 entries), repeats, permutes and duplicates them; in-domain verdicts compared with the conjunction of reference single verifications, out-of-domain only the promised errors and determinism. Cooperating corruptions (S halves swapped at block distances, crafted S for an undecodable R) and an adaptive adversary that observes the batch coefficients through a guarded seam and shifts two S values so that their errors cancel.",
    note="False Ok for an in-domain bad batch has probability 2^-128 and is ignored.",
    technique="deterministic simulation: queue histories under network faults, metamorphic (repeat/permute/duplicate) plus reference-conjunction oracle"),
  "C14": dict(level="exploration", ref="DESIGN.md §3 C14",
@@ -42,11 +42,11 @@ CLAIMS = {
    note="Release profile (shipped behaviour).",
    technique="deterministic simulation: no-node-crashes invariant under framing/Byzantine faults on every decoder"),
  "C16": dict(level="fault_enumeration", ref="DESIGN.md §3 C16",
-   text="For each sampled value of each serialisable type in bincode and JSON: fault-free round trip and canonical payload, then complete enumeration of truncations, bit flips, trailing bytes, duplicated block, JSON token edits and SimFormat deserializer faults; typed read compared with the native decoder applied to the payload the same stream yields as plain bytes.",
+   text="For each sampled value of each serialisable type in bincode (legacy, varint, big-endian options) and JSON: canonical stream and round trip, then complete enumeration of truncations, bit flips, trailing bytes, duplicated blocks, length-prefix edits, JSON token edits (delete / duplicate / append / type confusion / digit insertion / very long sequences), boundary payloads (around l and p, structured word-wise) and SimFormat deserializer faults; the typed read must equal the native decoding rule applied to the payload the same stream yields as plain bytes (through the format's own parser), and deserialised points must be consistent representations.",
    note="Values are sampled, fault positions enumerated completely. Trusts bincode/serde_json as byte extractors.",
    technique="fault enumeration on stored encodings with a differential (native decoder) oracle"),
  "C05": dict(level="exploration", ref="DESIGN.md §3 C05",
-   text="The same plans (wire, group, disk families) executed in every backend build and under every dispatcher policy; per-step event logs must be byte-identical across configurations.",
+   text="The same plans (wire, group, disk families) executed in every backend build (simd, 32-bit, fiat, nightly IFMA, tables off, zeroize off), under forced dispatcher answers (always serial / AVX2 / IFMA) and in a bare build without optional features (driver-min, subset of steps); per-step event logs (a hash of every byte and discriminant the library returned) must be identical across configurations. Quick: 800 plans x 9 configurations + bare build.",
    note="Determinism of plan execution is what turns log equality into an oracle; validated by the determinism self-test.",
    technique="deterministic replay of identical plans across build configurations and dispatcher answers, event-log equality"),
  "C11": dict(level="exploration", ref="DESIGN.md §3 C11",
@@ -80,11 +80,11 @@ def main():
     m = dict(
         version=1,
         setup_cmd="./check setup",
-        hooks=dict(guard="--cfg curve25519_dalek_verif", enable="RUSTFLAGS='--cfg curve25519_dalek_verif' (set by ./check for every driver build; the driver defines curve25519_dalek_verif_pick_backend)",
+        hooks=dict(guard="--cfg curve25519_dalek_verif", enable="RUSTFLAGS='--cfg curve25519_dalek_verif' (set by ./check for every driver build; the drivers define curve25519_dalek_verif_pick_backend and curve25519_dalek_verif_observe_scalars; bound monitors additionally need debug assertions, i.e. the *-checked builds)",
                    baseline_off_cmd="cd /repo && cargo test --workspace --no-fail-fast --offline",
                    source_commits=hook_commits, add_only=True),
         engines=[dict(name="dalek-sim", path="/verif/sim", serves_properties=sorted(BUILT),
-                      kind_free_text="deterministic simulator: PRNG-generated explicit plans, lockstep execution by the real crates and a reference model, shrinker, replay files; Python driver ./check")],
+                      kind_free_text="deterministic simulator: PRNG-generated explicit plans (network, RNG, digest, iterator, dispatcher, storage and allocator seams), lockstep execution by the real crates and a reference model, shrinker, replay files; binaries dalek-sim, dalek-sim-alloc (allocator seam), dalek-sim-min (bare-feature build); Python driver ./check")],
         checks=checks, not_applicable=na,
         notes="Technique family: deterministic simulation with fault injection. See DESIGN.md. known_findings.json lists recorded/fixed findings.")
     json.dump(m, open("MANIFEST.json", "w"), indent=1)
